@@ -121,6 +121,14 @@ def run(ctx, res):
         judge(ctx, res, execute(ctx, items[i : i + 4000]))
     gen_all_check(ctx, res, cases[: ctx.budget(150, 3000)])
     c01_code.run_code(ctx, res)
+    # histories on one input object: costs changed in place between calls (state keyed by the input object)
+    rng = ctx.rng
+    for c in rng.sample(cases, min(len(cases), ctx.budget(60, 600))):
+        other = gen.rand_costs(rng, plain=True)
+        if rng.random() < 0.4:
+            other["hgt"] = "inf"
+        if not solvers.inplace_history(res, c, dict(solvers.full_costs(c), **other), rng.choice(["thl", "thl", "exh"])):
+            break
 
 
 def fails_one(ctx):
